@@ -15,6 +15,7 @@ import (
 	"io"
 	"log"
 	"math/rand"
+	"strings"
 
 	"verifharness/kit"
 
@@ -480,7 +481,7 @@ func main() {
 			"a history is non-trivial when it has >= 3 processor runs, a request later than and one earlier than or equal to the outstanding one, and a request issued inside Process; " +
 			"distinct by the hash of the history",
 		Assumptions: []string{
-			"serial engine, one goroutine; requests are never in the past",
+			"serial engine, one goroutine (parallel family: parallel engine, notifications from other goroutines of the same round); requests are never in the past",
 			"a request issued inside Process (also for the current instant) needs a run that starts after it",
 			"the processor run time is the engine clock when Process is entered",
 		},
@@ -493,17 +494,31 @@ func main() {
 			for i := 0; i < nb; i++ {
 				bs = append(bs, kit.Batch{Name: fmt.Sprintf("hist%d", i), Seed: seed*1000 + int64(i), N: n})
 			}
+			// parallel-engine family (parallel.go): real goroutines, so the worker count is part of the plan
+			np, pn := 4, 400
+			if tier == "thorough" {
+				np, pn = 16, 6000
+			}
+			for i := 0; i < np; i++ {
+				bs = append(bs, kit.Batch{Name: fmt.Sprintf("par%d", i), Seed: seed*1000 + 500 + int64(i), N: pn,
+					Env: []string{fmt.Sprintf("GOMAXPROCS=%d", []int{2, 4, 8, 16}[i%4])}})
+			}
 			return bs
 		},
 		Run: run,
 		MustObserve: []string{"processor_runs", "req_earlier_than_outstanding", "req_later_than_outstanding", "req_equal_to_outstanding",
 			"req_with_none_outstanding", "requests_inside_process", "requests_outside_process", "requests_from_outside_the_engine",
-			"notif_recv_by_port_delivery", "notif_free_by_port", "requests_absorbed_by_dedup_guard", "requests_for_the_current_instant_inside_process", "notifications_during_process"},
+			"notif_recv_by_port_delivery", "notif_free_by_port", "requests_absorbed_by_dedup_guard", "requests_for_the_current_instant_inside_process", "notifications_during_process",
+			"parallel_notifications_while_handle_running", "parallel_notifications_in_an_instant_with_a_timer_run"},
 	})
 }
 
 func run(b kit.Batch, r *kit.R) {
 	log.SetOutput(io.Discard)
+	if strings.HasPrefix(b.Name, "par") {
+		runParallel(r)
+		return
+	}
 	r.ForEach(b.N, func(c *kit.Case) {
 		sc := genScript(c.Rng)
 		c.Desc(sc)
